@@ -8,6 +8,7 @@ import SqlLineage.IO.Config
 import SqlLineage.IO.Graph
 import SqlLineage.IO.Sql
 import SqlLineage.IO.PathSec
+import SqlLineage.IO.Names
 
 open Lean
 
@@ -23,7 +24,13 @@ def handlers : List (String × (Json → Except String Json)) := [
   ("dispatch", SqlLineage.IO.Sql.handleDispatch),
   ("path", SqlLineage.IO.PathSec.handleOne),
   ("pathbatch", SqlLineage.IO.PathSec.handleBatch),
-  ("pathlib", SqlLineage.IO.PathSec.handlePathlib)
+  ("pathlib", SqlLineage.IO.PathSec.handlePathlib),
+  ("ident", SqlLineage.IO.Names.handleIdent),
+  ("namesBatch", SqlLineage.IO.Names.handleBatch),
+  ("namesOf", SqlLineage.IO.Names.handleOf),
+  ("namesSrc", SqlLineage.IO.Names.handleSrc),
+  ("namesSites", SqlLineage.IO.Names.handleSites),
+  ("namesEq", SqlLineage.IO.Names.handleEq)
 ]
 
 def handleLine (line : String) : String :=
